@@ -70,6 +70,9 @@ pub(crate) struct InternalStorage<Db: Database> {
     pub(crate) param_id_to_index: DashMap<ParamId, Index<ParamId>>,
     pub(crate) derived_node_id_to_revision: DashMap<DerivedNodeId, DerivedNodeRevision>,
     pub(crate) source_node_key_to_index: DashMap<Key, Index<SourceNode>>,
+    /// The epoch at which a source was last removed. Reads of an absent source are
+    /// dependencies, too: they change when the source is created or removed.
+    pub(crate) source_node_key_to_removed_epoch: DashMap<Key, Epoch>,
 
     pub(crate) derived_nodes: BoxcarVec<DerivedNode<Db>>,
     pub(crate) derived_node_dependencies: BoxcarVec<Vec<Dependency>>,
@@ -92,6 +95,7 @@ impl<Db: Database> Storage<Db> {
                 param_id_to_index: DashMap::new(),
                 derived_node_id_to_revision: DashMap::new(),
                 source_node_key_to_index: DashMap::new(),
+                source_node_key_to_removed_epoch: DashMap::new(),
 
                 source_nodes: BoxcarVec::new(),
                 derived_nodes: BoxcarVec::new(),
@@ -132,7 +136,15 @@ impl<Db: Database> Storage<Db> {
     }
 
     fn get_impl<T: 'static>(&self, key: Key) -> Option<&T> {
-        let source_node = self.internal.get_source_node(key)?;
+        let Some(source_node) = self.internal.get_source_node(key) else {
+            // The absence of a source is observable (see `get_singleton`), so it must be
+            // tracked: the reader is invalidated once the source is created.
+            self.register_dependency_in_parent_memoized_fn(
+                NodeKind::Source(key),
+                self.internal.source_removed_epoch(key),
+            );
+            return None;
+        };
 
         self.register_dependency_in_parent_memoized_fn(
             NodeKind::Source(key),
@@ -316,6 +328,15 @@ impl<Db: Database> InternalStorage<Db> {
             .as_ref()
     }
 
+    /// The epoch at which the source was last removed, or the initial epoch if it was
+    /// never removed.
+    pub(crate) fn source_removed_epoch(&self, key: Key) -> Epoch {
+        self.source_node_key_to_removed_epoch
+            .get(&key)
+            .map(|epoch| *epoch)
+            .unwrap_or_default()
+    }
+
     pub(crate) fn insert_source_node(&self, source_node: SourceNode) -> Index<SourceNode> {
         Index::new(self.source_nodes.push(Some(source_node)))
     }
@@ -350,8 +371,11 @@ impl<Db: Database> InternalStorage<Db> {
                 }
             }
             Entry::Vacant(vacant_entry) => {
+                // Creating a source is an observable change: memoized functions may have
+                // observed its absence.
+                let next_epoch = self.current_epoch.increment();
                 let index = self.insert_source_node(SourceNode {
-                    time_updated: self.current_epoch,
+                    time_updated: next_epoch,
                     value: Box::new(source),
                 });
                 vacant_entry.insert(index);
@@ -361,7 +385,9 @@ impl<Db: Database> InternalStorage<Db> {
 
     pub fn remove_source<T>(&mut self, id: SourceId<T>) {
         if let Some((_, index)) = self.source_node_key_to_index.remove(&id.key) {
-            self.current_epoch.increment();
+            let removed_epoch = self.current_epoch.increment();
+            self.source_node_key_to_removed_epoch
+                .insert(id.key, removed_epoch);
             self.source_nodes
                 .get_mut(index.idx)
                 .expect(
